@@ -1,13 +1,29 @@
 #!/bin/bash
-# build.sh [race]  — (re)build bin/vcheck (and bin/vcheck-race) from /repo's current working tree.
-# The harness module replaces the repository modules with /repo/v2 and /repo/execution, so every
-# build recompiles whatever changed there. Hooks are enabled with the build tag `verif`.
+# build.sh [race] [cmdname]  — (re)build bin/<cmdname> (default vcheck) and, with "race", bin/<cmdname>-race
+# from /repo's current working tree. The harness module replaces the repository modules with
+# /repo/v2 and /repo/execution, so every build recompiles whatever changed there. Hooks are enabled
+# with the build tag `verif`.
+# REPO_DIR=<dir> builds against another checkout of the repository instead (scratch worktrees used
+# for seeded-break self tests); OUT_DIR=<dir> puts the binaries elsewhere.
 set -e
 . "$(dirname "$0")/env.sh"
 cd "$VERIF_DIR/harness"
-cat /repo/v2/go.sum /repo/execution/go.sum /repo/go.work.sum 2>/dev/null | sort -u > go.sum
-mkdir -p "$VERIF_DIR/bin"
-$GO build -tags verif -o "$VERIF_DIR/bin/vcheck" ./cmd/vcheck
+REPO_DIR=${REPO_DIR:-/repo}
+OUT_DIR=${OUT_DIR:-$VERIF_DIR/bin}
+CMD=${2:-vcheck}
+mkdir -p "$OUT_DIR"
+MODFLAG=""
+if [ "$REPO_DIR" != "/repo" ]; then
+  tmpmod=$(mktemp -d /tmp/vmod.XXXXXX)
+  sed "s#=> /repo/#=> $REPO_DIR/#" go.mod > "$tmpmod/go.mod"
+  cat "$REPO_DIR/v2/go.sum" "$REPO_DIR/execution/go.sum" "$REPO_DIR/go.work.sum" 2>/dev/null | sort -u > "$tmpmod/go.sum"
+  MODFLAG="-modfile=$tmpmod/go.mod"
+  trap 'rm -rf "$tmpmod"' EXIT
+else
+  cat /repo/v2/go.sum /repo/execution/go.sum /repo/go.work.sum 2>/dev/null | sort -u > go.sum.new
+  cmp -s go.sum.new go.sum && rm go.sum.new || mv go.sum.new go.sum
+fi
+$GO build $MODFLAG -tags verif -o "$OUT_DIR/$CMD" ./cmd/$CMD
 if [ "$1" = "race" ]; then
-  $GO build -race -tags verif -o "$VERIF_DIR/bin/vcheck-race" ./cmd/vcheck
+  $GO build $MODFLAG -race -tags verif -o "$OUT_DIR/$CMD-race" ./cmd/$CMD
 fi
